@@ -4,6 +4,8 @@ package lab
 
 import (
 	"bufio"
+	"bytes"
+	"io"
 	"crypto/tls"
 	"fmt"
 	"net"
@@ -40,8 +42,12 @@ func genC13(t *rapid.T) C13Case {
 		for i := 0; i < n; i++ {
 			var s C13Step
 			if rapid.IntRange(0, 3).Draw(t, "special") == 0 {
-				s.Special = rapid.SampledFrom([]string{"abort-upload", "abort-download", "upgrade", "connect10", "idle-close", "half-request"}).Draw(t, "specialkind")
+				s.Special = rapid.SampledFrom([]string{"abort-upload", "abort-download", "upgrade", "connect10", "idle-close", "half-request",
+					"mitm-abandon", "mitm-bad-hello", "mitm-cleartext"}).Draw(t, "specialkind")
 				s.Route = rapid.SampledFrom([]string{"direct", "direct", "mitm", "upstream"}).Draw(t, "sroute")
+				if strings.HasPrefix(s.Special, "mitm-") {
+					s.Route = "mitm"
+				}
 				if s.Special == "connect10" && s.Route == "mitm" {
 					s.Route = "direct"
 				}
@@ -125,6 +131,25 @@ func (e *fltEnv) runSpecial(s C13Step, id int64, idx int) acct {
 			return a
 		}
 		a.reqs = append(a.reqs, acctReq{"CONNECT", 200})
+		switch s.Special {
+		case "mitm-abandon":
+			// the client leaves right after the 200, before the first byte of a handshake
+			return a
+		case "mitm-bad-hello":
+			// something that starts like a TLS record and is not a handshake
+			tc.Write(append([]byte{0x16, 0x03, 0x01, 0x00, 0x20}, bytes.Repeat([]byte{0xfe}, 32)...))
+			io.Copy(io.Discard, br)
+			return a
+		case "mitm-cleartext":
+			// clear-text HTTP inside the tunnel: the proxy serves it as a request of its own
+			fmt.Fprintf(tc, "GET /s HTTP/1.1\r\nHost: %s\r\nX-Vid: %s\r\nConnection: close\r\n\r\n", host, vid)
+			code := 0
+			if m, err := ReadResponse(br, "GET"); err == nil {
+				code = m.Status
+			}
+			a.reqs = append(a.reqs, acctReq{"GET", code})
+			return a
+		}
 		t := tls.Client(tc, &tls.Config{RootCAs: e.ca.Pool, ServerName: "tls.test"})
 		if err := t.Handshake(); err != nil {
 			a.skip = true
